@@ -303,6 +303,26 @@ pub fn run_c14(ctx: &mut Ctx, shard: usize, nshards: usize) {
             }
         }
     }
+    // compounds that are larger than the largest single packet (65 536 words) although every member fits,
+    // and compounds of members beyond 65 535 bytes
+    if ctx.scale >= 0.5 && shard == 2 % nshards {
+        let big = |pt: u8, n: usize| Cfg::Unknown { pt, count: 0, data: (0..n).map(|i| (i * 7) as u8).collect(), padding: 0 };
+        let rr = Cfg::Rr { ssrc: 1, blocks: vec![], padding: 0 };
+        let byep = Cfg::Bye { sources: vec![1], reason: String::new(), padding: 4 };
+        check_c14(ctx, &Cfg::Compound((0..5).map(|k| big(199 + k as u8 % 2, 60_000)).collect()), How::default());
+        check_c14(
+            ctx,
+            &Cfg::Compound(vec![
+                rr.clone(),
+                Cfg::App { ssrc: 1, subtype: 0, name: "big".into(), data: vec![0x42; 131_072], padding: 0 },
+                Cfg::Compound(vec![big(210, 131_072), byep.clone()]),
+            ]),
+            crate::mon::writers::hows(1),
+        );
+        check_c14(ctx, &Cfg::Compound(vec![big(199, 262_140), big(199, 262_140), rr.clone()]), How::default());
+        check_c14(ctx, &Cfg::Compound(vec![big(199, 65_536), byep.clone()]), crate::mon::writers::hows(4));
+        ctx.class("c14:compound>65536-words");
+    }
     let invalid = Cfg::App { ssrc: 1, subtype: 99, name: "x".into(), data: vec![], padding: 0 };
     for a in &leafs {
         go(ctx, vec![a.clone()]);
@@ -816,6 +836,50 @@ pub fn check_c20(ctx: &mut Ctx, cfg: &Cfg) {
                 format!("history {h}: {} {}", got.0.render(), gb.as_ref().map(|b| hex(&b[..b.len().min(80)])).unwrap_or_default()),
             );
             return;
+        }
+    }
+    // the eight construction routes of `drive` (borrowed / owned variants x plain / PacketBuilder-wrapped x
+    // direct / probing with observers between the setters of the builder *and of its sub-builders*) are
+    // further "histories" reaching the same final configuration
+    {
+        let route = |h: usize| -> (WOut, Option<Vec<u8>>) {
+            let how = crate::mon::writers::hows(h);
+            with_writer(cfg, how, |w| {
+                let r = calc(w);
+                if let WOut::Ok(n) = &r {
+                    if *n > (1 << 22) {
+                        return (r, None);
+                    }
+                    let mut buf = vec![0u8; *n];
+                    match write(w, &mut buf) {
+                        WOut::Ok(m) if m == *n => (r, Some(buf)),
+                        other => (other, None),
+                    }
+                } else {
+                    (r, None)
+                }
+            })
+        };
+        let first = route(0);
+        if !matches!(first.0, WOut::Panic(_)) {
+            let fb = first.1.clone().map(|b| canon_fir(cfg, b));
+            for h in 1..8 {
+                let got = route(h);
+                let gb = got.1.clone().map(|b| canon_fir(cfg, b));
+                if got.0 != first.0 || gb != fb {
+                    let how = crate::mon::writers::hows(h);
+                    ctx.violate(
+                        "history-independent",
+                        kind,
+                        if got.0 != first.0 { "route:size-or-error" } else { "route:bytes" },
+                        || cfg_case("c20", cfg, how),
+                        format!("plain borrowed route: {} {}", first.0.render(), fb.as_ref().map(|b| hex(&b[..b.len().min(80)])).unwrap_or_default()),
+                        format!("route owned={} wrapped={} probing={}: {} {}", how.owned, how.wrap, how.probe, got.0.render(), gb.as_ref().map(|b| hex(&b[..b.len().min(80)])).unwrap_or_default()),
+                    );
+                    return;
+                }
+            }
+            ctx.class("c20:routes-compared");
         }
     }
     // list-adding calls preserve insertion order: if the image differs from the model's but equals
